@@ -106,6 +106,35 @@ inline void magnifyCircuit(Circuit &c, int f) {
   }
 }
 
+// The orientation a cell of the given row polarity takes in a row of the given orientation, as the documentation of CellRowPolarity
+// states it - the harness's own table, deliberately not the library's cellOrientationInRow (an oracle input must not come from the
+// code under test).  UNKNOWN = keeps its orientation (ANY), INVALID = the row is forbidden.
+inline CellOrientation expectedOrientationInRow(CellRowPolarity pol, CellOrientation row) {
+  auto mirroredTopBottom = [](CellOrientation o) {
+    switch (o) {
+      case CellOrientation::N: return CellOrientation::FS;
+      case CellOrientation::FS: return CellOrientation::N;
+      case CellOrientation::S: return CellOrientation::FN;
+      case CellOrientation::FN: return CellOrientation::S;
+      case CellOrientation::E: return CellOrientation::FW;
+      case CellOrientation::FW: return CellOrientation::E;
+      case CellOrientation::W: return CellOrientation::FE;
+      case CellOrientation::FE: return CellOrientation::W;
+      default: return CellOrientation::INVALID;
+    }
+  };
+  bool northLike = row == CellOrientation::N || row == CellOrientation::FN || row == CellOrientation::W || row == CellOrientation::FW;
+  bool southLike = row == CellOrientation::S || row == CellOrientation::FS || row == CellOrientation::E || row == CellOrientation::FE;
+  switch (pol) {
+    case CellRowPolarity::ANY: return CellOrientation::UNKNOWN;
+    case CellRowPolarity::SAME: return row;
+    case CellRowPolarity::OPPOSITE: return mirroredTopBottom(row);
+    case CellRowPolarity::NW: return northLike ? row : CellOrientation::INVALID;
+    case CellRowPolarity::SE: return southLike ? row : CellOrientation::INVALID;
+  }
+  return CellOrientation::INVALID;
+}
+
 struct GenInfo {
   int rowHeight = 1;
   long long freeWidth = 0;
@@ -226,7 +255,8 @@ inline Circuit genCircuit(Rng &r, const GenOpts &o, GenInfo *info = nullptr) {
     if (o.polar && r.chance(0.4)) {
       if (r.chance(0.8)) {
         // the meaningful combinations
-        if (rowsHigh % 2 == 1) p = r.chance(0.5) ? CellRowPolarity::SAME : CellRowPolarity::OPPOSITE;
+        if (o.singleRowOnly) p = r.pick(std::vector<CellRowPolarity>{CellRowPolarity::SAME, CellRowPolarity::OPPOSITE, CellRowPolarity::NW, CellRowPolarity::SE});
+        else if (rowsHigh % 2 == 1) p = r.chance(0.5) ? CellRowPolarity::SAME : CellRowPolarity::OPPOSITE;
         else p = r.chance(0.5) ? CellRowPolarity::NW : CellRowPolarity::SE;
       } else {
         p = r.pick(std::vector<CellRowPolarity>{CellRowPolarity::SAME, CellRowPolarity::OPPOSITE, CellRowPolarity::NW,
